@@ -119,6 +119,25 @@ def case_strategy(draw, big=False):
         sched = {"seed": draw(st.integers(1, 2**31)), "switch": draw(st.sampled_from([0.3, 0.7])), "pprob": draw(st.sampled_from([0.1, 0.3, 0.5])),
                  "hot": ["pop", "peek", "__len__", "_process_received_data"]}
         return {"frames": frames, "cuts": [], "bursts": [0], "sched": sched, "mode": "chunk-race"}
+    if draw(st.integers(0, 7)) == 0:
+        # focused family: small frames, cuts only ON frame boundaries (some segments carry several frames, some exactly one),
+        # every following segment arrives a few scheduling steps later - while the protocol thread, preempted inside the
+        # framing loop, may hold a frame it has taken out of the buffer but not yet handed on
+        frames = []
+        for i, k in enumerate(draw(st.lists(st.sampled_from(["LT", "S1F1", "S6F12", "S10F3", "S2F17"]), min_size=3, max_size=7))):
+            d = {"k": k, "sys": 0x20000 + i}
+            if k == "S10F3":
+                d["n"] = draw(st.integers(0, 30))
+            if k in ("S10F3", "S6F12"):
+                d["fill"] = draw(st.integers(0, 255))
+            frames.append(d)
+        lens = [len(frame_bytes(f)) for f in frames]
+        starts = [sum(lens[:i]) for i in range(1, len(lens))]
+        cuts = sorted(s for s in starts if draw(st.sampled_from([True, True, False])))
+        bursts = [draw(st.sampled_from([2, 3, 4, 6, 9, 13, 20, 30, 45])) for _ in range(len(cuts) + 1)]
+        sched = {"seed": draw(st.integers(1, 2**31)), "switch": draw(st.sampled_from([0.3, 0.7])), "pprob": draw(st.sampled_from([0.1, 0.3, 0.5])),
+                 "hot": ["_process_received_data", "pop", "queue_block", "_on_connection_data_received"]}
+        return {"frames": frames, "cuts": cuts, "bursts": bursts, "sched": sched, "mode": "whole-frame-race"}
     frames = draw(frames_strategy(big=big))
     lens = [len(frame_bytes(f)) for f in frames]
     total = sum(lens)
